@@ -245,6 +245,39 @@ def _task(t):
     return {"st": st, "viols": viols, "ncons": ncons, "kind": kind}
 
 
+def lazy_import_children(ctx):
+    """Fresh interpreters in which pysnark.poseidon_hash is imported for the FIRST time inside a secret-guarded region
+    (false / true guard; only imported / also used there), then used in live code."""
+    import os as _os
+    import subprocess as _sp
+    child = _os.path.join(common.VERIF, "pv", "children", "minimal_child.py")
+    jobs = []
+    for name, (mod, p) in FIELDS.items():
+        for guard in (0, 1):
+            for use_inside in (False, True):
+                cfg = {"scenario": "poseidon-first-import-inside-region", "tree": common.TREE, "name": name, "mod": mod, "p": str(p),
+                       "guard": guard, "use_inside": use_inside}
+                jobs.append((cfg, _sp.Popen([common.PY, child, json.dumps(cfg)], stdout=_sp.PIPE, stderr=_sp.PIPE, text=True,
+                                            env=dict(_os.environ, PYTHONHASHSEED="0"), start_new_session=True)))
+    for cfg, pr in jobs:
+        so, se = pr.communicate()
+        rep = None
+        for ln in so.splitlines():
+            if ln.startswith("@@"):
+                rep = json.loads(ln[2:])
+        ctx.add("lazy_import_configurations")
+        if rep is None:
+            ctx.harness_errors.append("lazy-import child failed (%s guard %s): %s" % (cfg["name"], cfg["guard"], se[-300:]))
+            continue
+        bad = [d for d in rep["digests"] if not d["equal_reference"] or d["unsat"] or d["mism"]]
+        if bad or not rep["state_clean"]:
+            ctx.violation({"klass": "hash-wrong-after-import-inside-region", "field": cfg["name"], "guard": cfg["guard"]},
+                          {"lazy": {k: v for k, v in cfg.items() if k != "tree"}},
+                          "[%s] pysnark.poseidon_hash first imported inside a region with guard %d%s: afterwards, in live code, %s"
+                          % (cfg["name"], cfg["guard"], " (and used there)" if cfg["use_inside"] else "",
+                             "; ".join("poseidon_hash(%s) %s" % (d["msg"], "differs from the reference" if not d["equal_reference"] else "leaves unsatisfied constraints / value-wire mismatch") for d in bad[:3]) or "guard state not clean"))
+
+
 def selection_points():
     """Every way of selecting each Poseidon-capable backend, and the ways that must NOT get a table."""
     pts = []
@@ -314,6 +347,7 @@ def run(ctx):
         if len(counts) > 1:
             ctx.violation({"klass": "constraint-count-depends-on-input", "field": key[0]}, {"key": list(key)},
                           "%s: numbers of constraints %s for inputs of the same shape" % (key, sorted(counts)))
+    lazy_import_children(ctx)
     sel = common.pool_map(c19.run_point, selection_points())
     for res in sel:
         ctx.add("selection_configurations")
@@ -337,7 +371,22 @@ def run(ctx):
     ctx.sample({"field": "zkifbellman", "permute": [0, 1, 2, 3, 4], "expect": "published x5_255_5 vector"})
 
 
+class _Ctx:
+    def __init__(self):
+        self.cov, self.harness_errors, self.viols = {}, [], []
+
+    def violation(self, sig, case, what):
+        self.viols.append({"sig": sig, "what": what})
+
+    def add(self, k, n=1):
+        self.cov[k] = self.cov.get(k, 0) + n
+
+
 def replay(case):
+    if "lazy" in case:
+        c = _Ctx()
+        lazy_import_children(c)
+        return {"scenario": "first import inside a region", "violations": c.viols, "harness_errors": c.harness_errors}
     if "pt" in case:
         env, pre, deps, pos = case["pt"]
         res = c19.run_point((env, tuple(pre), tuple(deps), pos))
